@@ -249,6 +249,58 @@ def analytic_case(qr, heom, numpy, ck):
         tr = float(numpy.abs(numpy.trace(rt.data, axis1=1, axis2=2) - 1.0).max())
         if tr > 1e-9:
             ck.fail("dyn:trace", "API-built hierarchy: trace not conserved", {"depth": depth}, tr, 0)
+    # a history on one propagator: the optional mode that integrates the auxiliary operators only, then an ordinary run again
+    try:
+        import io, contextlib
+        with contextlib.redirect_stdout(io.StringIO()):
+            first = numpy.array(prop.propagate(qr.ReducedDensityMatrix(data=r0.copy())).data).copy()
+            prop.propagate(qr.ReducedDensityMatrix(data=r0.copy()), free_hierarchy=True)
+            again = numpy.array(prop.propagate(qr.ReducedDensityMatrix(data=r0.copy())).data).copy()
+        ck.case(("analytic-history",), nontrivial=True, kind="analytic")
+        if numpy.abs(again - first).max() > 1e-10:
+            ck.fail("dyn:after-free-hierarchy", "an ordinary propagation after propagate(..., free_hierarchy=True) on the same propagator differs from the "
+                    "one before it", {"depth": depth}, float(numpy.abs(again - first).max()))
+        err_again = float(numpy.abs(again[:, 1, 0] - ref).max())
+        if err_again > max(5e-3, 2.0 * out[str(depth)]):
+            ck.fail("dyn:analytic:after-free-hierarchy", "after a free-hierarchy run the result no longer follows exp(-i w t - g(t))", {"depth": depth}, err_again)
+    except Exception as e:
+        ck.fail("raises:free-hierarchy", "propagate(free_hierarchy=True) / the run after it raised %r" % (e,), {})
+    # a single molecule with several excited levels of which only the higher transitions have a bath: every level dephases with its own
+    # line-shape function, the bath-free coherence keeps its magnitude
+    try:
+        with energy_units("1/cm"):
+            mol = Molecule([0.0, 9800.0, 10000.0, 10300.0])
+            cfs = {2: CorrelationFunction(ta, dict(ftype="OverdampedBrownian", reorg=20.0, cortime=40.0, T=T, matsubara=20)),
+                   3: CorrelationFunction(ta, dict(ftype="OverdampedBrownian", reorg=35.0, cortime=90.0, T=T, matsubara=20))}
+            for k_, cf_ in cfs.items():
+                mol.set_transition_environment((0, k_), cf_)
+        errs_m = {}
+        for depth_m in ck.n((2, 5), (2, 4, 6)):
+            with contextlib.redirect_stdout(io.StringIO()):
+                pm = mol.get_KTHierarchyPropagator(depth=depth_m)
+                hm = pm.hy
+                rm0 = numpy.full((hm.dim, hm.dim), 1.0 / hm.dim, dtype=complex)
+                rtm = pm.propagate(qr.ReducedDensityMatrix(data=rm0.copy()))
+            HHm = hm.ham.data
+            t = ta.data
+            # which bath acts on which level is read from the system-bath operators the hierarchy was given
+            for lev in range(1, hm.dim):
+                wl = (HHm[lev, lev] - pm.HOmega[lev, lev]) - (HHm[0, 0] - pm.HOmega[0, 0])
+                gl = numpy.zeros(len(t), dtype=complex)
+                if lev in cfs:
+                    kb = sorted(cfs).index(lev)
+                    gl = (2.0 * hm.lam[kb] * hm.kBT / hm.gamma[kb] ** 2 - 1j * hm.lam[kb] / hm.gamma[kb]) * (numpy.exp(-hm.gamma[kb] * t) + hm.gamma[kb] * t - 1.0)
+                refl = numpy.exp(-1j * wl * t - gl) / hm.dim
+                errs_m.setdefault(lev, {})[str(depth_m)] = float(numpy.abs(rtm.data[:, lev, 0] - refl).max())
+        ck.case(("analytic-molecule",), nontrivial=True, kind="analytic")
+        ck.extra["molecule_level_errors_by_depth"] = errs_m
+        dm = sorted(errs_m[1], key=int)
+        for lev, byd in errs_m.items():
+            if byd[dm[-1]] > 5e-3:
+                ck.fail("dyn:analytic:molecule:level-%d" % lev, "multi-level molecule with baths on the transitions 0->2 and 0->3 only: coherence rho_%d0 does not "
+                        "follow exp(-i w t - g(t)) of its own transition (no bath: g = 0)" % lev, {"errors_by_depth": byd})
+    except Exception as e:
+        ck.fail("raises:analytic:molecule", "hierarchy of a multi-level molecule raised %r" % (e,), {})
     ds = sorted(out, key=int)
     if out[ds[-1]] > 1e-3 or out[ds[-1]] > out[ds[0]] + 1e-12:
         ck.fail("dyn:analytic", "uncoupled sites: result does not converge with depth to exp(-i w t - g(t))", {"errors_by_depth": out})
